@@ -649,6 +649,21 @@ class Val:
                 raise Unsupported(f"where over {a.kind}/{b.kind}")
         if (a.im is None) != (b.im is None):
             a, b = a.to_complex(), b.to_complex()
+        if a.kind == "lin" and a.im is None and b.im is None and a.key() != b.key():
+            # branches that are provably equal (e.g. a mask applied to a coefficient that is identically
+            # zero, as in the backward of a max shift): no if-then-else is needed
+            try:
+                va, vb = a.concrete(CTX.env), b.concrete(CTX.env)
+                close_ = abs(va - vb) <= 1e-9 * max(1.0, abs(va), abs(vb))
+            except Exception:
+                close_ = False
+            if close_:
+                ck = (a.key(), b.key())
+                memo = CTX.__dict__.setdefault("_where_eq", {})
+                if ck not in memo:
+                    memo[ck] = CTX.prove_equal(a.full_re(), b.full_re())
+                if memo[ck]:
+                    return b if (not b.mu and b.re.op == "const") else a
         if a.mu != b.mu:
             g, ra, rb = mu_split(a.mu, b.mu)
             a = Val(a.kind, T.mul(a.re, mu_term(ra)), None if a.im is None else T.mul(a.im, mu_term(ra)), g)
